@@ -1520,7 +1520,7 @@ impl FixtureDatabase {
         cycles
     }
 
-    /// Actually compute fixture cycles using iterative DFS.
+    /// Actually compute fixture cycles (shortest cycle through every definition on a cycle).
     ///
     /// The graph is built over fixture *definitions* (not names): every dependency is
     /// resolved from the depending fixture's file with the same shadowing rules as
@@ -1529,7 +1529,7 @@ impl FixtureDatabase {
     /// self-cycle, as in pytest). Nodes and edges are visited in a deterministic order
     /// (file path, line), so the reported cycles and the fixture each is attached to do
     /// not depend on registration order or hash iteration order.
-    /// Uses an iterative algorithm to avoid stack overflow on deep dependency graphs.
+    /// Uses iterative searches to avoid stack overflow on deep dependency graphs.
     fn compute_fixture_cycles(&self) -> Vec<super::types::FixtureCycle> {
         use super::types::FixtureCycle;
         use std::collections::HashMap;
@@ -1574,62 +1574,82 @@ impl FixtureDatabase {
             edges.push(targets);
         }
 
+        // Report, for every definition that lies on a dependency cycle, a shortest cycle
+        // through it (breadth-first search back to the definition itself). Each distinct
+        // cycle is reported once, so every fixture taking part in a cycle is covered by at
+        // least one diagnostic.
         let mut cycles = Vec::new();
-        let mut visited = vec![false; defs.len()];
+        let mut covered = vec![false; defs.len()];
         let mut seen_cycles: HashSet<Vec<usize>> = HashSet::new(); // Deduplicate cycles
 
         for start in 0..defs.len() {
-            if visited[start] {
+            if covered[start] {
                 continue;
             }
 
-            // Stack entries: (node, index of the next edge to follow); `path` mirrors the stack
-            let mut stack: Vec<(usize, usize)> = vec![(start, 0)];
-            let mut path: Vec<usize> = vec![start];
-            let mut on_path = vec![false; defs.len()];
-            on_path[start] = true;
+            // BFS from `start`; `prev[n]` is the node we reached `n` from
+            let mut prev: Vec<Option<usize>> = vec![None; defs.len()];
+            let mut queue: std::collections::VecDeque<usize> = std::collections::VecDeque::new();
+            let mut reached = vec![false; defs.len()];
+            reached[start] = true;
+            queue.push_back(start);
+            let mut closing: Option<usize> = None; // node with an edge back to `start`
 
-            while let Some((node, edge_idx)) = stack.last().copied() {
-                if edge_idx < edges[node].len() {
-                    stack.last_mut().unwrap().1 += 1;
-                    let next = edges[node][edge_idx];
-                    if on_path[next] {
-                        // Found a cycle: path[pos(next)..] closes back to `next`
-                        let pos = path.iter().position(|&n| n == next).unwrap_or(0);
-                        let mut cycle_nodes: Vec<usize> = path[pos..].to_vec();
-                        // Canonical rotation: start at the smallest node so the report is
-                        // attached to the same fixture however the cycle was entered
-                        if let Some(min_pos) = cycle_nodes
-                            .iter()
-                            .enumerate()
-                            .min_by_key(|(_, &n)| n)
-                            .map(|(p, _)| p)
-                        {
-                            cycle_nodes.rotate_left(min_pos);
-                        }
-                        let mut key = cycle_nodes.clone();
-                        key.sort_unstable();
-                        if seen_cycles.insert(key) {
-                            let mut cycle_path: Vec<String> =
-                                cycle_nodes.iter().map(|&n| defs[n].name.clone()).collect();
-                            cycle_path.push(defs[cycle_nodes[0]].name.clone());
-                            cycles.push(FixtureCycle {
-                                cycle_path,
-                                fixture: defs[cycle_nodes[0]].clone(),
-                            });
-                        }
-                    } else if !visited[next] {
-                        stack.push((next, 0));
-                        path.push(next);
-                        on_path[next] = true;
+            'bfs: while let Some(node) = queue.pop_front() {
+                for &next in &edges[node] {
+                    if next == start {
+                        closing = Some(node);
+                        break 'bfs;
                     }
-                } else {
-                    // Done with this node
-                    visited[node] = true;
-                    on_path[node] = false;
-                    stack.pop();
-                    path.pop();
+                    if !reached[next] {
+                        reached[next] = true;
+                        prev[next] = Some(node);
+                        queue.push_back(next);
+                    }
                 }
+            }
+
+            let Some(last) = closing else {
+                continue; // `start` is not on any cycle
+            };
+
+            // Reconstruct start -> ... -> last (-> start)
+            let mut cycle_nodes: Vec<usize> = vec![last];
+            let mut cur = last;
+            while cur != start {
+                match prev[cur] {
+                    Some(p) => {
+                        cycle_nodes.push(p);
+                        cur = p;
+                    }
+                    None => break,
+                }
+            }
+            cycle_nodes.reverse();
+            for &n in &cycle_nodes {
+                covered[n] = true;
+            }
+
+            // Canonical rotation: start at the smallest node so the report is attached to
+            // the same fixture however the cycle was entered
+            if let Some(min_pos) = cycle_nodes
+                .iter()
+                .enumerate()
+                .min_by_key(|(_, &n)| n)
+                .map(|(p, _)| p)
+            {
+                cycle_nodes.rotate_left(min_pos);
+            }
+            let mut key = cycle_nodes.clone();
+            key.sort_unstable();
+            if seen_cycles.insert(key) {
+                let mut cycle_path: Vec<String> =
+                    cycle_nodes.iter().map(|&n| defs[n].name.clone()).collect();
+                cycle_path.push(defs[cycle_nodes[0]].name.clone());
+                cycles.push(FixtureCycle {
+                    cycle_path,
+                    fixture: defs[cycle_nodes[0]].clone(),
+                });
             }
         }
 
